@@ -50,7 +50,10 @@ PROPS = {
         nontrivial=both(count_ops(r"^insert", 3), count_ops(r"^(remove|despawn)", 1)),
     ),
     "C03": dict(
-        profiles=[("spawns", dict(quick=150, thorough=4000), {}), ("general", dict(quick=30, thorough=500), {})],
+        profiles=[("spawns", dict(quick=150, thorough=4000), {}), ("general", dict(quick=30, thorough=500), {}),
+                  # ids must stay valid through the removal of component types the entity does not have (round-7 change
+                  # C03_W_1: stale member_of entries tear down an unrelated archetype, its entities vanish)
+                  ("cascade", dict(quick=40, thorough=1000), {})],
         channels=["ids", "store", "ret"],
         rule="history reuses an entity slot (a spawn after a despawn) or spawns from inside a handler",
         nontrivial=either(has(r"^t  spawned"), both(count_ops(r"^despawn", 1), count_ops(r"^spawn", 3))),
